@@ -30,6 +30,7 @@ type cookieCfg struct {
 	SameSite int
 	MaxAge   int
 	ExpOff   int64 // seconds; 0 = no Expires attribute
+	Shared   bool  // NewSessionCookie returns one and the same template object on every call
 }
 
 type respWriter struct{ h http.Header }
@@ -93,6 +94,18 @@ func (h *sessHarness) applyCfg(name string, v int64) {
 func (h *sessHarness) applyCookieCfg() {
 	c := h.ck
 	sessions.SessionCookie = c.Name
+	if c.Shared {
+		// an application that keeps one template and hands it out again and again; the package may set name and value on it
+		tpl := &http.Cookie{Domain: c.Domain, Path: c.Path, Secure: c.Secure, HttpOnly: c.HTTPOnly,
+			SameSite: http.SameSite(c.SameSite), MaxAge: c.MaxAge}
+		sessions.NewSessionCookie = func() *http.Cookie {
+			if c.ExpOff != 0 {
+				tpl.Expires = time.Now().Add(time.Duration(c.ExpOff) * time.Second)
+			}
+			return tpl
+		}
+		return
+	}
 	sessions.NewSessionCookie = func() *http.Cookie {
 		ck := &http.Cookie{Domain: c.Domain, Path: c.Path, Secure: c.Secure, HttpOnly: c.HTTPOnly,
 			SameSite: http.SameSite(c.SameSite), MaxAge: c.MaxAge}
@@ -407,6 +420,8 @@ func runSess(scriptPath, outPath, stateIn, stateOut string, from int) {
 					h.ck.MaxAge = int(atoi64(p[1]))
 				case "expoff":
 					h.ck.ExpOff = atoi64(p[1])
+				case "shared":
+					h.ck.Shared = p[1] == "1"
 				default:
 					fatal("bad cookiecfg %q", kv)
 				}
